@@ -175,6 +175,22 @@ def rule_export(ctx, repo):
     ok = bool(t) and any(Q.match("out[$n] = $i.vin", d.g.data(n)["ast"]) and d.g.guarded_by(n, t[0], "true")
                          for n in d.g.nodes() if d.g.data(n)["kind"] == "stmt")
     ctx.check(ok, "C11.export", "ModelData.as_dict", "vin=True returns the input-base values", "as_dict(vin=True) no longer returns vin", d.W())
+    # the input-base override applies to every exported parameter: its guards mention only vin (not the serializer), and the
+    # serializer (oconvert) is applied to whatever value was selected
+    g_bad = []
+    for n in d.g.nodes():
+        if d.g.data(n)["kind"] == "stmt" and Q.match("out[$n] = $i.vin", d.g.data(n)["ast"]):
+            for tn in d.g.nodes():
+                dd = d.g.data(tn)
+                if dd["kind"] == "test" and d.g.dominates(tn, n) and (d.g.guarded_by(n, tn, "true") or d.g.guarded_by(n, tn, "false")):
+                    c_ = src(dd["ast"].test)
+                    if "oconvert" in c_ or "conv" in c_.split("vin")[0]:
+                        g_bad.append(c_)
+    conv_on_selected = Q.has("out[$n] = np.array([$c($x) for $x in out[$n]])", d.fn)
+    ctx.check(not g_bad and conv_on_selected, "C11.export", "ModelData.as_dict/all-params",
+              "vin override independent of the serializer; oconvert applied to the selected value",
+              "the input-base value is used only for parameters without a serializer (%s): list-valued / converted parameters are "
+              "exported in system base and converted twice when read back" % (g_bad or "oconvert not applied to out[name]"), d.W())
     i = F.method(repo, "ModelData", "__init__", MODELDATA)
     ok = Q.has("self.cache.add_callback('df_in', lambda: self.as_df(vin=True))", i.fn)
     ctx.check(ok, "C11.export", "ModelData.cache.df_in", "cached export view is as_df(vin=True)", "df_in is no longer the input-base view", i.W())
